@@ -28,6 +28,7 @@ SPEC = dict(
         "hand-written model coq/models/Version.v of strutil/version.go, tied by the differential run (harness/overlay/strutil/zz_verif_c33_test.go)",
         "reference model of dpkg's verrevcmp written from lib/dpkg/version.c; cross-checked against /usr/bin/dpkg on a sample",
     ],
-    assumptions=["strings containing a NUL byte are outside the version alphabet (transitivity/dpkg theorems assume no NUL)",
+    assumptions=["PARTIAL: transitivity and agreement with dpkg are proved only on complete finite domains (strings <= 2 / <= 3 over `0a.~-`); beyond them they are monitored on the implementation, not proved. Reflexivity, sign flip, antisymmetry, totality, result range and epoch rejection are proved for all byte strings.",
+                 "strings containing a NUL byte are outside the version alphabet (transitivity/dpkg theorems assume no NUL)",
                  "dpkg agreement is stated for structurally valid versions: non-empty upstream part, non-empty revision after a hyphen"],
 )
